@@ -53,6 +53,10 @@ pub fn leaves() -> Vec<C> {
         rv("t1"),
         rv("t2"),
         rv("x"),
+        // function values (truthy, length 0)
+        rv("fv"),
+        rv("nv"),
+        rv("cv"),
     ]
 }
 
@@ -62,6 +66,9 @@ fn expr_prologue() -> Vec<C> {
         sv("t1", C::Array(vec![int(1)])),
         sv("t2", C::Array(vec![int(1), int(2)])),
         sv("x", int(7)),
+        sv("fv", C::Function("id".into())),
+        sv("nv", C::NativeFunction("echo".into())),
+        sv("cv", C::Closure(vec![], vec![C::Return(b(int(1)))])),
     ]
 }
 
@@ -72,7 +79,7 @@ fn expr_program(e: C) -> Module {
     cards.push(sg("ge", rv("e")));
     cards.push(sg("g1", rv("t1")));
     cards.push(sg("g2", rv("t2")));
-    module(vec![("main", func(&[], cards))])
+    module(vec![("main", func(&[], cards)), ("id", func(&["p"], vec![C::Return(b(rv("p")))]))])
 }
 
 /// all depth-1 expressions over the leaves
@@ -265,6 +272,11 @@ pub fn stmt_alphabet() -> Vec<Stmt> {
         st(C::IfFalse(b(C::Nil), b(sv("b", int(8))))),
         st(C::IfElse(b(lt(rv("a"), rv("b"))), b(sv("a", int(10))), b(sv("b", int(20))))),
         st(C::IfElse(b(int(0)), b(sv("a", int(10))), b(sv("b", int(20))))),
+        // function values in boolean positions are truthy
+        st(C::IfElse(b(C::Function("f1".into())), b(sv("a", int(11))), b(sv("b", int(21))))),
+        st(C::IfTrue(b(C::NativeFunction("echo".into())), b(sv("b", int(12))))),
+        st(sv("a", C::Not(b(C::NativeFunction("log".into()))))),
+        fun_only(C::IfElse(b(rv("a")), b(sv("b", int(30))), b(C::Return(b(rv("b")))))),
         // early exits
         fun_only(C::Return(b(rv("a")))),
         fun_only(C::IfTrue(b(rv("a")), b(C::Return(b(rv("b")))))),
